@@ -3,6 +3,8 @@
 
 #[macro_use]
 pub mod engine;
+pub mod hist;
+pub mod model;
 pub mod pv;
 pub mod props;
 
